@@ -8,6 +8,7 @@ import (
 	"hash/fnv"
 	"os"
 	"os/exec"
+	"runtime/debug"
 	"strings"
 	"time"
 
@@ -28,6 +29,7 @@ const (
 )
 
 type isolation struct {
+	skipOps  map[string]bool // entry points not run any more (the search died twice in them)
 	f        *os.File
 	free     chan int
 	skip     map[uint64]bool
@@ -105,11 +107,17 @@ func readSlots(path string) []published {
 
 // ChildMain is the entry of the child process (called from reg_c07.go's init when ChildEnv is set).
 func ChildMain() {
+	debug.SetMaxStack(64 << 20) // a runaway recursion dies in a fraction of a second instead of filling 1 GB
 	mode := os.Getenv(ChildEnv)
 	tier, repo := os.Getenv("WRH_C07_TIER"), os.Getenv("WRH_C07_REPO")
 	var seed uint64
 	fmt.Sscanf(os.Getenv("WRH_C07_SEED"), "%d", &seed)
-	iso := &isolation{skip: map[uint64]bool{}}
+	iso := &isolation{skip: map[uint64]bool{}, skipOps: map[string]bool{}}
+	for _, op := range strings.Split(os.Getenv("WRH_C07_SKIPOPS"), ",") {
+		if op != "" {
+			iso.skipOps[op] = true
+		}
+	}
 	out := res.New("C07", tier, seed)
 	if mode == "one" {
 		iso.oneOp = os.Getenv("WRH_C07_OP")
@@ -243,15 +251,17 @@ func RunSearch(tier string, seed uint64, repo string, out *res.Result) error {
 	defer os.RemoveAll(dir)
 	slots, outFile, skipFile := dir+"/slots", dir+"/result.json", dir+"/skip.json"
 	var skip []uint64
+	deaths := map[string]int{}
+	var skipOps []string
 	limit := 25 * time.Minute
 	if tier == "thorough" {
 		limit = 40 * time.Minute
 	}
-	for attempt := 0; attempt < 4; attempt++ {
+	for attempt := 0; attempt < 8; attempt++ {
 		b, _ := json.Marshal(skip)
 		os.WriteFile(skipFile, b, 0o644)
 		os.Remove(outFile)
-		cmd := childCmd("search", tier, seed, repo, "WRH_C07_SLOTS="+slots, "WRH_C07_OUT="+outFile, "WRH_C07_SKIP="+skipFile)
+		cmd := childCmd("search", tier, seed, repo, "WRH_C07_SLOTS="+slots, "WRH_C07_OUT="+outFile, "WRH_C07_SKIP="+skipFile, "WRH_C07_SKIPOPS="+strings.Join(skipOps, ","))
 		var se bytes.Buffer
 		cmd.Stderr = &se
 		if err := cmd.Start(); err != nil {
@@ -324,10 +334,10 @@ func RunSearch(tier string, seed uint64, repo string, out *res.Result) error {
 				return fatalKey(m2, s2) == key
 			}
 			n := 2
-			for len(in) >= 1 && used < 60 {
+			for len(in) >= 1 && used < 40 {
 				chunk := (len(in) + n - 1) / n
 				reduced := false
-				for i := 0; i < len(in) && used < 60; i += chunk {
+				for i := 0; i < len(in) && used < 40; i += chunk {
 					j := i + chunk
 					if j > len(in) {
 						j = len(in)
@@ -354,6 +364,11 @@ func RunSearch(tier string, seed uint64, repo string, out *res.Result) error {
 			out.Add(res.Finding{Kind: "crash", Op: c.op, Input: in, Reason: m + " (the search process was killed; reproduced alone in a fresh process)", Key: key,
 				Impl: map[string]interface{}{"first_webrender_frame": st, "original_bytes": len(c.in), "shrink_runs": used, "stderr": head(stderr, 1500)}})
 			skip = append(skip, hashInput(c.op, c.in))
+			deaths[opGroup(c.op)]++
+			if deaths[opGroup(c.op)] == 2 {
+				skipOps = append(skipOps, opGroup(c.op))
+				out.NotChecked = append(out.NotChecked, "c07 search: entry point "+opGroup(c.op)+" killed the search process twice (see the fatal findings); its remaining inputs were not run")
+			}
 		}
 		out.Hit("search-process-died")
 		if found == 0 {
@@ -366,7 +381,7 @@ func RunSearch(tier string, seed uint64, repo string, out *res.Result) error {
 			return nil
 		}
 	}
-	out.Notes = append(out.Notes, "c07 search: the search process died at 4 attempts; the findings so far are reported, the rest of the search was not run")
+	out.Notes = append(out.Notes, "c07 search: the search process died at 8 attempts; the findings so far are reported, the rest of the search was not run")
 	return nil
 }
 
